@@ -17,7 +17,8 @@ RULE = ("Hypothesis-generated suite trees (depth 0..4, fan-out 0..4) mixing plai
         "subclasses without hooks / with sort_tests / with a non-mutating filter_by_ids, empty suites and "
         "PlaceHolder-based leaves with unique or duplicated ids, plus id subsets incl. absent ids; "
         "iterate_tests / filter_by_ids / sorted_tests / testtools.run --list / --load-list are compared "
-        "with a reference flattening, filtering and ordering computed on the spec. Non-trivial: depth >= 2 "
+        "with a reference flattening, filtering and ordering computed on the spec. Also: FixtureSuite nodes, the utilities composed on one tree (sort, filter, sort), custom suites keep their identity through filter_by_ids, list files with CRLF / without a final newline, test_ids as set / frozenset / list / dict / __contains__-only object, ids that sort differently under other collations, the exit status of --list. "
+        "Non-trivial: depth >= 2 "
         "with a custom suite, or an empty custom suite, or a duplicate id below depth 1; distinct = "
         "distinct canonical (tree, ids).")
 ASSUMPTIONS = [
